@@ -51,7 +51,7 @@ AlphaFragQ == AlphaOf([Query |-> {"o", "s"}, T |-> {"s"}])
 \* fault-enumeration alphabets: every nullability layout between a fault and the root
 AlphaLayout == AlphaOf([Query |-> {"o", "on", "lo", "lnn", "nl", "nlnn", "ll", "lln", "sn", "ls", "e", "le"}, T |-> {"s", "sn"}])
 AlphaNested == AlphaOf([Query |-> {"o", "on", "lnn"}, T |-> {"sn", "on", "lo", "i"}])
-AlphaAbstractF == AlphaOf([Query |-> {"p", "np", "lp", "lu"}, P |-> {"s"}, A |-> {"an"}, U |-> {"__typename"}])
+AlphaAbstractF == AlphaOf([Query |-> {"p", "np", "lp", "lu"}, P |-> {"s"}, A |-> {"an"}, B |-> {"d"}, U |-> {"__typename"}])
 AlphaPairs == AlphaOf([Query |-> {"o", "on", "s"}, T |-> {"s", "sn"}])
 AlphaMutF == AlphaOf([Mutation |-> {"m1", "m2", "m3", "m4"}, T |-> {"sn"}])
 AlphaArgsF == AlphaOf([Query |-> {"g", "gd", "o", "on"}, T |-> {"g", "s"}])
@@ -133,6 +133,7 @@ AllTR == SUBSET {"field", "type", "engine"}
 BenignAt(p) ==
   LET t == p.type
       core == IF IsNN(t) THEN Tail(t) ELSE t IN
+  IF "dres" \in DOMAIN p THEN {} ELSE
   (IF ~IsNN(t) THEN {[o |-> "null"]} ELSE {})
   \cup (IF ~IsNN(t) /\ ~IsList(core) /\ Named(core) = "Cs" THEN {[o |-> "blank"]} ELSE {})
   \cup (IF IsList(core) THEN {[o |-> "len", n |-> 0], [o |-> "len", n |-> 1], [o |-> "len", n |-> 3]} ELSE {})
